@@ -14,6 +14,9 @@ import (
 	"time"
 
 	"google.golang.org/grpc"
+	"google.golang.org/grpc/codes"
+	"google.golang.org/grpc/metadata"
+	"google.golang.org/grpc/status"
 	"pgregory.net/rapid"
 
 	pb "github.com/fullstorydev/grpchan/grpchantesting"
@@ -29,6 +32,13 @@ type c05Case struct {
 	// Reject: something in front of the HTTP handlers (auth decorator, proxy, wrong mount point) answers the
 	// request itself with this HTTP status; the handler never runs and the stream has failed at the HTTP level
 	Reject int `json:",omitempty"`
+	// Unary mode (Kind == unary): a call that the caller may abandon (cancellation, deadline) while the handler is
+	// still at work; the handler then sets headers/trailers in the drawn order and returns. Judged: the call
+	// returns, the handler's operations return, and no goroutine of the library is left behind.
+	UnaryOps   []string `json:",omitempty"` // sethdr | sendhdr | settlr
+	UnaryFinal string   `json:",omitempty"` // nil | status | ctx
+	UnaryEnd   string   `json:",omitempty"` // none | cancel | deadline
+	UnaryReps  int      `json:",omitempty"` // Go's select picks randomly among ready cases
 }
 
 type schedResult struct {
@@ -319,7 +329,134 @@ func trimDump(s string) string {
 	return s
 }
 
+// c05Unary: one abandoned (or plainly completed) unary call, repeated; see c05Case.UnaryOps.
+func c05Unary(c c05Case) *Outcome {
+	o := &Outcome{NonTrivial: c.UnaryEnd != "none"}
+	o.class("carrier=%s/kind=%s", c.Carrier, c.Kind)
+	o.class("unary/end=%s/final=%s/ops=%d", c.UnaryEnd, c.UnaryFinal, len(c.UnaryOps))
+	c05Serial.Lock()
+	defer c05Serial.Unlock()
+	before, _ := libraryGoroutines()
+	type sig struct{ started, done chan struct{} }
+	var mu sync.Mutex
+	sigs := make([]*sig, c.UnaryReps)
+	for i := range sigs {
+		sigs[i] = &sig{started: make(chan struct{}), done: make(chan struct{})}
+	}
+	var opStall string
+	svc := &Service{Unary: func(hctx context.Context, req *pb.Message) (*pb.Message, error) {
+		if req.Count < 0 || int(req.Count) >= len(sigs) {
+			return nil, status.Error(codes.Internal, "harness: unknown call")
+		}
+		g := sigs[req.Count]
+		defer close(g.done)
+		close(g.started)
+		if c.UnaryEnd != "none" {
+			select {
+			case <-hctx.Done():
+			case <-time.After(stallBound / 2):
+				// over HTTP a handler need not learn that the caller went away; it just carries on
+			}
+		}
+		if st := guardFor(stallBound/2, "handler's header/trailer operations", func() {
+			for _, op := range c.UnaryOps {
+				switch op {
+				case "sethdr":
+					grpc.SetHeader(hctx, metadata.Pairs("h", "1"))
+				case "sendhdr":
+					grpc.SendHeader(hctx, metadata.Pairs("h", "2"))
+				case "settlr":
+					grpc.SetTrailer(hctx, metadata.Pairs("t", "1"))
+				}
+			}
+		}); st != "" {
+			mu.Lock()
+			opStall = st
+			mu.Unlock()
+		}
+		switch c.UnaryFinal {
+		case "status":
+			return nil, status.Error(codes.FailedPrecondition, "scripted")
+		case "ctx":
+			if err := hctx.Err(); err != nil {
+				return nil, err
+			}
+			return nil, context.Canceled
+		}
+		return &pb.Message{Count: 7}, nil
+	}}
+	car := newCarrier(c.Carrier, newServiceDesc(), svc, carrierOpts{})
+	defer car.Close()
+	var results []string
+	for rep := 0; rep < c.UnaryReps; rep++ {
+		g := sigs[rep]
+		ctx, cancel := context.WithCancel(context.Background())
+		if c.UnaryEnd == "deadline" {
+			ctx, cancel = context.WithTimeout(context.Background(), 15*time.Millisecond)
+		}
+		var err error
+		stall := guard("unary call", func() {
+			if c.UnaryEnd == "cancel" {
+				go func() {
+					select {
+					case <-g.started:
+					case <-time.After(stallBound / 2):
+					}
+					cancel()
+				}()
+			}
+			err = car.Conn.Invoke(ctx, mUnary, &pb.Message{Count: int32(rep)}, new(pb.Message))
+		})
+		cancel()
+		results = append(results, errStr(err))
+		o.Observed = map[string]interface{}{"results": results}
+		if stall != "" {
+			return o.failf("%s/unary (end=%s, handler ops %v, final %s), call %d: %s", c.Carrier, c.UnaryEnd, c.UnaryOps, c.UnaryFinal, rep, stall)
+		}
+		if c.UnaryEnd == "none" {
+			if (c.UnaryFinal == "nil") != (err == nil) {
+				return o.failf("%s/unary (handler ops %v, final %s), call %d: caller got %s", c.Carrier, c.UnaryOps, c.UnaryFinal, rep, errStr(err))
+			}
+		} else if err == nil && c.UnaryFinal != "nil" {
+			return o.failf("%s/unary (end=%s, final %s), call %d: caller got success", c.Carrier, c.UnaryEnd, c.UnaryFinal, rep)
+		}
+		// the handler has been started (unless the call ended before it was dispatched) and comes to an end
+		select {
+		case <-g.started:
+			select {
+			case <-g.done:
+			case <-time.After(stallBound):
+				return o.failf("%s/unary (end=%s, handler ops %v, final %s), call %d: handler still running after %v\n%s", c.Carrier, c.UnaryEnd, c.UnaryOps, c.UnaryFinal, rep, stallBound, goroutineDump())
+			}
+		case <-time.After(100 * time.Millisecond):
+			// not dispatched so far (the context ended first); should it start late it finds its context done and
+			// returns at once, well within the census bound below
+		}
+		mu.Lock()
+		st := opStall
+		mu.Unlock()
+		if st != "" {
+			return o.failf("%s/unary (end=%s, handler ops %v), call %d: %s", c.Carrier, c.UnaryEnd, c.UnaryOps, rep, st)
+		}
+	}
+	deadline := time.Now().Add(3 * time.Second)
+	for {
+		n, dump := libraryGoroutines()
+		if n <= before {
+			break
+		}
+		if time.Now().After(deadline) {
+			return o.failf("%s/unary (end=%s, handler ops %v, final %s): %d library goroutine(s) still alive 3s after %d call(s) ended and their handlers returned:\n%s", c.Carrier, c.UnaryEnd, c.UnaryOps, c.UnaryFinal, n-before, c.UnaryReps, trimDump(dump))
+		}
+		time.Sleep(500 * time.Microsecond)
+	}
+	return o
+}
+
 func propC05(c c05Case) *Outcome {
+	if c.Kind == kUnary {
+		return c05Unary(c)
+	}
 	o := &Outcome{}
 	o.class("carrier=%s/kind=%s", c.Carrier, c.Kind)
 	cancelInScript := false
@@ -630,6 +767,14 @@ func genStepsFor(t *rapid.T, kind string, allowCancel bool, maxSteps int, second
 }
 
 func genC05(t *rapid.T) c05Case {
+	if rapid.IntRange(0, 11).Draw(t, "unary") == 0 {
+		c := c05Case{Carrier: rapid.SampledFrom([]string{cInproc, cInproc, cInproc, cHTTP, cHTTPMux, cHTTPPer}).Draw(t, "ucarrier"), Kind: kUnary}
+		c.UnaryOps = rapid.SliceOfN(rapid.SampledFrom([]string{"sethdr", "sendhdr", "settlr"}), 0, 3).Draw(t, "uops")
+		c.UnaryFinal = rapid.SampledFrom([]string{"nil", "status", "ctx"}).Draw(t, "ufinal")
+		c.UnaryEnd = rapid.SampledFrom([]string{"none", "cancel", "cancel", "deadline"}).Draw(t, "uend")
+		c.UnaryReps = rapid.IntRange(3, 8).Draw(t, "ureps")
+		return c
+	}
 	c := c05Case{Carrier: rapid.SampledFrom([]string{cInproc, cInproc, cInproc, cHTTP, cHTTPMux, cHTTPPer}).Draw(t, "carrier"), Kind: rapid.SampledFrom([]string{kClientStream, kServerStream, kBidi, kBidi}).Draw(t, "kind")}
 	c.Steps = genStepsFor(t, c.Kind, true, 14, c.Carrier == cInproc && rapid.Bool().Draw(t, "h2"))
 	if c.Kind == kClientStream && rapid.IntRange(0, 5).Draw(t, "overrespond") == 0 {
@@ -655,7 +800,7 @@ func init() { registerReplay("C05", propC05) }
 
 const c05Rule = "rapid-generated schedules of <=14 steps over three actors (client sender: SendMsg small/medium, CloseSend also repeated; client receiver: RecvMsg, Header, Trailer; handler: RecvMsg, SendMsg, SetHeader, SendHeader, SetTrailer, return ok/err) plus cancellation, on the in-process channel, httpgrpc.Server and HandleServices for client-, server- and bidi-streaming; each step is released when the previous one has returned or parked (goroutine state from runtime.Stack); " +
 	"then phase A (client closes and drains, handler returns), phase B (context cancelled), operations after completion, goroutine census; invariants: no panic; everything finishes in phase A (10 s, stable park = deadlock) and certainly in phase B; later operations return; without cancellation sends return nil or io.EOF (EOF only once the handler returned), receives are an intact prefix of what the handler sent followed by the handler's status, stable across repeated calls; no library goroutine survives; " +
-	"also generated since the seeded rounds: a second client goroutine calling CloseSend, a second handler goroutine (in-process) incl. SendHeader after the handler returned, sends above 256 KiB, undecodable reply headers and HTTP-level rejection (401/403/404/415/502/503 from a middleware: only termination, panics and leaks judged), senders-only drain stage, a second receiving goroutine calling Header() concurrently with RecvMsg, the per-method HTTP server form, handlers answering a single-response method 3..5 times, and a goroutine census taken before any cancellation once the client has received the final status; " +
+	"also generated since the seeded rounds: a second client goroutine calling CloseSend, a second handler goroutine (in-process) incl. SendHeader after the handler returned, sends above 256 KiB, undecodable reply headers and HTTP-level rejection (401/403/404/415/502/503 from a middleware: only termination, panics and leaks judged), senders-only drain stage, a second receiving goroutine calling Header() concurrently with RecvMsg, the per-method HTTP server form, handlers answering a single-response method 3..5 times, and a goroutine census taken before any cancellation once the client has received the final status; unary calls (3..8 in a row) that the caller abandons by cancellation or deadline while the handler is at work, the handler then setting/sending headers and trailers in any order and returning nil, a status or its context's error (call returns, handler operations return, no library goroutine left); " +
 	"non-trivial = a scheduled client operation was pending or issued after the handler returned; distinct by case hash"
 
 func TestC05(t *testing.T) {
